@@ -12,13 +12,20 @@ Local Open Scope N_scope.
    wheld: the key objects stored in the maps of the world, in either table. *)
 Theorem C06_history_conserves_keys : forall c w ts rs w',
   0 < cR c -> WInv c w -> ok_run c w ts rs w' ->
-  wdks w' ++ wheld w' ++ keys_out ts rs ≡ₚ keys_in ts ++ wdks w ++ wheld w.
+  wdks w' ++ wheld w' ++ keys_out ts rs ≡ₚ keys_in c w ts ++ wdks w ++ wheld w.
 Proof. exact T_C06_history_conserves_keys. Qed.
 
 (* once every map is gone, every key object ever given has been dropped or handed back, once *)
 Theorem C06_all_released_once_maps_are_gone : forall c ts rs w',
-  0 < cR c -> ok_run c world0 ts rs w' -> w_maps w' = ∅ -> wdks w' ++ keys_out ts rs ≡ₚ keys_in ts.
+  0 < cR c -> ok_run c world0 ts rs w' -> w_maps w' = ∅ -> wdks w' ++ keys_out ts rs ≡ₚ keys_in c world0 ts.
 Proof. exact T_C06_all_released. Qed.
+
+(* what goes in: the key objects passed to insert/extend/from_iter/par_extend, and the copies that
+   clone/clone_from make of the source's key objects; without clones it is a function of the calls *)
+Theorem C06_keys_in_static : forall c w ts rs w',
+  ok_run c w ts rs w' -> forallb (fun t => static_in (t_op t)) ts = true ->
+  keys_in c w ts = concat (map (fun t => k_in world0 (t_op t)) ts).
+Proof. exact T_C06_keys_in_static. Qed.
 
 (* storing a new element - with whatever growing (the main table becomes the old one) and
    carrying (elements move from the old table to the new one) the call performs - drops nothing:
@@ -151,6 +158,7 @@ Proof. exact T_C06_lite_reachable. Qed.
 
 Print Assumptions C06_history_conserves_keys.
 Print Assumptions C06_all_released_once_maps_are_gone.
+Print Assumptions C06_keys_in_static.
 Print Assumptions C06_moves_drop_nothing.
 Print Assumptions C06_insert_drops_duplicate_key_only.
 Print Assumptions C06_insert_conserves.
